@@ -265,26 +265,52 @@ def wrapper_case(rng, idx, stats):
     stats["n%d" % n] = stats.get("n%d" % n, 0) + 1
     for sh in shapes:
         stats["shape_" + sh] = stats.get("shape_" + sh, 0) + 1
-    ops = ["w.new %d %s" % (n, " ".join(toks))]
+    # which of the function's parameters the wrapper reparametrises: all of them (first constructor)
+    # or a sub-list in any order, possibly with a foreign parameter (second constructor)
+    if rng.random() < 0.2:
+        k = rng.randint(1, n)
+        sel = rng.sample(range(n), k)
+        seltoks = [str(i) for i in sel]
+        if rng.random() < 0.3:
+            seltoks.insert(rng.randint(0, len(seltoks)), "f")
+        ops = ["w.newsub %d %s %s" % (n, ",".join(seltoks), " ".join(toks))]
+        stats["ctor_sublist"] = stats.get("ctor_sublist", 0) + 1
+    else:
+        sel = list(range(n))
+        ops = ["w.new %d %s" % (n, " ".join(toks))]
+        stats["ctor_all"] = stats.get("ctor_all", 0) + 1
+    m = len(sel)
     h = 2.0 ** -12
     for _ in range(rng.randint(3, 12)):
         r = rng.random()
-        if r < 0.45:
-            k = rng.randint(1, n)
-            idxs = sorted(rng.sample(range(n), k))
+        if r < 0.4:
+            k = rng.randint(1, m)
+            idxs = sorted(rng.sample(sel, k))
             ops.append("w.set %d %s" % (k, " ".join("%d %s" % (i, hx(coord(rng))) for i in idxs)))
+        elif r < 0.47:
+            # f() on current values: nothing changes, only the named coordinates are pushed
+            k = rng.randint(1, m)
+            idxs = sorted(rng.sample(sel, k))
+            ops.append("w.touch %d %s" % (k, " ".join("%d" % i for i in idxs)))
         elif r < 0.58:
-            ops.append("w.d1 %d" % rng.randrange(n))
+            ops.append("w.d1 %d" % rng.choice(sel))
         elif r < 0.7:
-            ops.append("w.d2 %d %d" % (rng.randrange(n), rng.randrange(n)))
-        elif r < 0.88 or n == 1:
-            ops.append("w.fd %d %s" % (rng.randrange(n), hx(h)))
+            ops.append("w.d2 %d %d" % (rng.choice(sel), rng.choice(sel)))
+        elif r < 0.88 or m == 1:
+            ops.append("w.fd %d %s" % (rng.choice(sel), hx(h)))
         else:
-            i = rng.randrange(n)
-            j = rng.choice([x for x in range(n) if x != i])
-            if rng.random() < 0.7 and n > 1:
-                j = i + 1 if i + 1 < n else i - 1
+            i = rng.choice(sel)
+            j = rng.choice([x for x in sel if x != i])
+            if rng.random() < 0.7 and (i + 1 in sel or i - 1 in sel):
+                j = i + 1 if i + 1 in sel else i - 1
             ops.append("w.fdx %d %d %s" % (i, j, hx(h)))
+    rest = [i for i in range(n) if i not in sel]
+    if rest and rng.random() < 0.25:
+        # a parameter the wrapper was not given: ParameterNotFoundException (last op: the harness
+        # drops the wrapper after an exception)
+        i = rng.choice(rest)
+        ops.append(rng.choice(["w.set 1 %d %s" % (i, hx(coord(rng))), "w.d1 %d" % i, "w.touch 1 %d" % i,
+                               "w.d2 %d %d" % (i, rng.choice(sel)), "w.fd %d %s" % (i, hx(h))]))
     return ["case wr%d n%d" % (idx, n)] + ops
 
 
